@@ -137,6 +137,15 @@ def _gate_in(u, fn, scc_names):
                 tgt = callee_name(c)
                 if tgt == fn.name and pi:
                     a = strip_casts(c['args'][pi[0]])
+                    if a.get('k') == 'ref' and a.get('dk') == 'local':
+                        # the next level's depth computed once into a local that is never changed (child_depth = depth + 1)
+                        ds_ = [d_['init'] for d_ in fn.locals() if d_['d'] == a['d'] and 'init' in d_ and const_val(d_['init']) is None]
+                        as_ = [x_ for x_ in assignments(fn) if is_ref(x_['l']) and strip_casts(x_['l'])['d'] == a['d']]
+                        ds_ += [x_['r'] if x_['op'] == '=' else None for x_ in as_]
+                        ds_ += [None for x_ in fn.nodes() if x_.get('k') == 'un' and x_.get('op') in ('post++', 'pre++', 'post--', 'pre--', '&') and
+                                is_ref(x_['e']) and strip_casts(x_['e'])['d'] == a['d']]
+                        if len(ds_) == 1 and ds_[0] is not None and (not as_ or cfg.dominates(node_containing(cfg, as_[0]).id, node.id)):
+                            a = strip_casts(ds_[0])
                     if a.get('k') == 'bin' and a['op'] == '+' and is_ref(a['l']) and strip_casts(a['l'])['d'] == counter['d'] \
                             and (const_val(a['r']) or 0) >= 1:
                         grows = 'passes %s' % expr_str(a)
